@@ -526,3 +526,70 @@ Section ShamirProofs.
     Qed.
   End Module.
 End ShamirProofs.
+
+(** * Closed statements (hypotheses packaged) *)
+
+(** the scalar field: a field ([field_theory], so [ring]/[field] apply) whose [inverse()] is
+    [None] on zero and the field inverse otherwise *)
+Definition scalar_field_laws {F : Type} (f0 f1 : F) (fadd fsub fmul fdiv : F -> F -> F)
+           (fopp finvf : F -> F) (finv : F -> option F) : Prop :=
+  field_theory f0 f1 fadd fmul fsub fopp fdiv finvf (@eq F) /\
+  finv f0 = None /\ (forall x, x <> f0 -> finv x = Some (finvf x)).
+
+(** the group as a module over the scalar field *)
+Definition module_laws {F M : Type} (f0 f1 : F) (fadd fmul : F -> F -> F)
+           (gzero : M) (gadd : M -> M -> M) (smul : F -> M -> M) : Prop :=
+  (forall a b c, gadd a (gadd b c) = gadd (gadd a b) c) /\
+  (forall a b, gadd a b = gadd b a) /\
+  (forall a, gadd gzero a = a) /\
+  (forall a b m, smul (fadd a b) m = gadd (smul a m) (smul b m)) /\
+  (forall a m n, smul a (gadd m n) = gadd (smul a m) (smul a n)) /\
+  (forall a b m, smul (fmul a b) m = smul a (smul b m)) /\
+  (forall m, smul f1 m = m) /\
+  (forall m, smul f0 m = gzero) /\
+  (forall a, smul a gzero = gzero).
+
+Section Closed.
+  Variable F : Type.
+  Variables f0 f1 : F.
+  Variables fadd fsub fmul fdiv : F -> F -> F.
+  Variables fopp finvf : F -> F.
+  Variable finv : F -> option F.
+  Hypothesis HF : scalar_field_laws f0 f1 fadd fsub fmul fdiv fopp finvf finv.
+  Hypothesis Feq_dec : forall x y : F, {x = y} + {x <> y}.
+
+  Theorem shamir_reveal_closed secret coeffs xs : NoDup xs -> S (length coeffs) <= length xs ->
+    reveal F f0 f1 fadd fsub fmul finv (map (fun x => (x, eval_share F f0 fadd fmul secret coeffs x)) xs)
+    = secret.
+  Proof. destruct HF as (H1 & H2 & H3). apply (shamir_reveal_lemma F f0 f1 fadd fsub fmul fdiv fopp finvf); assumption. Qed.
+
+  Theorem shamir_fewer_closed (xs ys : list F) (s : F) :
+    NoDup xs -> (forall x, In x xs -> x <> f0) -> length ys = length xs ->
+    exists coeffs, length coeffs = length xs /\
+      forall x y, In (x, y) (combine xs ys) -> eval_share F f0 fadd fmul s coeffs x = y.
+  Proof. destruct HF as (H1 & H2 & H3). apply (shamir_fewer_unconstrained_lemma F f0 f1 fadd fsub fmul fdiv fopp finvf); assumption. Qed.
+
+  Variable M : Type.
+  Variable gzero : M.
+  Variable gadd : M -> M -> M.
+  Variable smul : F -> M -> M.
+  Hypothesis HM : module_laws f0 f1 fadd fmul gzero gadd smul.
+
+  Theorem shamir_reveal_in_group_closed (m0 : M) (ms : list M) (xs : list F) :
+    NoDup xs -> S (length ms) <= length xs ->
+    reveal_in_group F f1 fsub fmul finv M gzero gadd smul
+      (map (fun x => (x, geval F M gzero gadd smul (m0 :: ms) x)) xs) = m0.
+  Proof.
+    destruct HF as (H1 & H2 & H3). destruct HM as (A1 & A2 & A3 & A4 & A5 & A6 & A7 & A8 & A9).
+    apply (shamir_reveal_in_group_lemma F f0 f1 fadd fsub fmul fdiv fopp finvf); assumption.
+  Qed.
+
+  Theorem shamir_reveal_exponent_closed (h : M) secret coeffs xs :
+    NoDup xs -> S (length coeffs) <= length xs ->
+    reveal_in_group F f1 fsub fmul finv M gzero gadd smul
+      (map (fun x => (x, smul (eval_share F f0 fadd fmul secret coeffs x) h)) xs) = smul secret h.
+  Proof.
+    destruct HF as (H1 & H2 & H3). destruct HM as (A1 & A2 & A3 & A4 & A5 & A6 & A7 & A8 & A9).
+    apply (shamir_reveal_exponent_lemma F f0 f1 fadd fsub fmul fdiv fopp finvf); assumption.
+  Qed.
+End Closed.
